@@ -314,7 +314,7 @@ def run_config(tier, cfg="default", features=None, rustflags="", only=None, fiel
         ds += BN.drivers()
     built = build(ds, tag="C05-" + cfg, features=features, rustflags=rustflags,
                   prelude="\n".join(getattr(f, "prelude", "") for f in fields))
-    timeout = 60 if tier == "quick" else 600
+    timeout = 150 if tier == "quick" else 600
     items += [("bin", None, bi) for bi in bin_items]
 
     def work(it):
